@@ -341,6 +341,9 @@ Definition visit_nodes (g : graph) (roots : list nat) : list nat :=
 Inductive gop :=
 | OpAdd (nm : string) (md : option dist) (source : option string) (reason : option req)
         (* add_dist(name_or_metadata, dists[source], reason) *)
+| OpAddFrom (nm : string) (md : option dist) (source : nat) (reason : option req)
+        (* add_dist(name_or_metadata, <node object number `source`, possibly no longer in the graph>, reason):
+           the solver keeps node objects across removals and passes them on as `source` *)
 | OpInvalidate (k : string)     (* remove_dists(dists[k], remove_upstream=False) *)
 | OpRemove (k : string).        (* remove_dists(dists[k]) *)
 
@@ -354,6 +357,11 @@ Definition gstep (fuel : nat) (e : env) (g : graph) (o : gop) : res graph :=
           | None => Rer EKey
           | Some s => '(g', _) <- add_dist fuel e g nm md (Some s) reason ;; Rok g'
           end
+      end
+  | OpAddFrom nm md sid reason =>
+      match alookup sid (heap g) with
+      | None => Rer EKey
+      | Some _ => '(g', _) <- add_dist fuel e g nm md (Some sid) reason ;; Rok g'
       end
   | OpInvalidate k =>
       match slookup (norm k) (index g) with
